@@ -28,13 +28,13 @@ func init() {
 		Race: true,
 		Rule: "Twin runs: the same layer history (initial value + 1-10 updates, blocking and non-blocking) is played (i) through sourcewrap.NewTransformingSource(fake inner source, manglers...) where the fake produces values OF THE TRANSLATED TYPE IT WAS ASKED FOR (filled by name with forward-converted typed values), and (ii) into a reference Dials whose fake source produces the pointerified original type directly; the two views must be equal after the initial stack and after every update. " +
 			"Mangler lists: none, set-slice, duration substitution, tag reformat, the ez file chain, the flag chain (flatten), the env chain (flatten + string cast) and three anonymous-flatten chains (alone, the YAML decoder's, ez+YAML) over a config type with an embedded struct that has nested structs (by pointer and by value; values leave them set and entirely unset). Inner sources: static, watching, failing at Value (Config must fail with an error wrapping it), failing at Watch, reporting errors (must reach OnWatchedError), and updates whose reverse translation fails (alias and primary both set: the error must come back from the inner source's report call and the view must stay). Transforming decoders go through the same twin comparison on JSON documents. " +
-			"Blank: every SetSource/Done sequence up to length 4 over {static inner, watching inner, inner failing at Value, Done} plus seeded longer ones, against a 15-line model (delegate to the latest non-watching inner; refuse to replace a watching one; a failing SetSource keeps the previous inner; Done reaches Dials iff no watching inner is installed - observed through monitor exit; an installed watching inner's later updates are applied for as long as the Config context lives, whatever context SetSource was called with). The sequences up to length 3 are run once more with every inner source behind NewTransformingSource(random mangler list), and the seeded longer ones wrap each inner source with probability 1/2: the model is unchanged (a wrapped static source is static, a wrapped watcher a watcher, a wrapped failure a failure). " +
+			"Blank: every SetSource/Done sequence up to length 4 over {static inner, watching inner, inner failing at Value, Done} plus seeded longer ones, against a 15-line model (delegate to the latest non-watching inner; refuse to replace a watching one; a failing SetSource keeps the previous inner; Done reaches Dials iff no watching inner is installed - observed through monitor exit; an installed watching inner's later updates are applied for as long as the Config context lives, whatever context SetSource was called with). The sequences up to length 3 are run once more with every inner source behind NewTransformingSource(random mangler list), and the seeded longer ones wrap each inner source with probability 1/2: the model is unchanged (a wrapped static source is static, a wrapped watcher a watcher, a wrapped failure a failure). A Watcher whose first value Verify refuses makes SetSource fail and is never watched: the next SetSource (static or watching) must be accepted and shown by the view. " +
 			"distinct_nontrivial = distinct (mangler list, inner kind, update pattern) and (Blank sequence) signatures.",
 		Assumptions: []string{"a Blank placed inside a transforming source is not generated (Blank's initial zero value is a pointer, which the transforming source does not accept: outside the statement)"},
 		MinDistinct: map[string]int{"quick": 800, "thorough": 40000},
 		MinCounters: map[string]map[string]int64{
 			"quick":    {"twin_views_compared": 3000, "wrapped_updates_applied": 1500, "blank_sequences_run": 340, "inner_errors_propagated": 150, "reverse_failures_returned_to_inner": 60,
-				"anon_flatten_values_with_hoisted_struct_unset": 200, "anon_flatten_values_with_hoisted_struct_set": 800, "blank_sequences_with_wrapped_inner_run": 200},
+				"anon_flatten_values_with_hoisted_struct_unset": 200, "anon_flatten_values_with_hoisted_struct_set": 800, "blank_sequences_with_wrapped_inner_run": 200, "blank_setsource_after_a_refused_watcher": 60},
 			"thorough": {"twin_views_compared": 800000},
 		},
 		Plan: func(tier string) fw.Plan {
@@ -499,6 +499,64 @@ func c20BlankAbandoned(w *fw.Worker, i int, r *fw.Rand) {
 	w.Distinct("blank-abandoned")
 }
 
+// c20BlankRefusedWatcher: SetSource with a Watcher whose first value Verify refuses fails, and that Watcher's Watch is
+// never called: it is not a watching inner source. The Blank still owns its slot, so the next SetSource (static or
+// watching) must be accepted and shown by the view. (Before /repo commit 356966c the Blank refused it with "disallowed
+// attempt to replace Watcher Source" and its Done became a no-op; C08 judges the shutdown side.)
+func c20BlankRefusedWatcher(w *fw.Worker, i int, r *fw.Rand) {
+	desc := map[string]any{"mode": "blank-watcher-whose-first-value-is-refused"}
+	w.BeginDesc(i, "blank-refused-watcher")
+	c, err := c07Start(r, true, conc.Opts{NSrc: 2})
+	if err != nil {
+		w.Violation(i, "config-failed", err.Error(), desc)
+		return
+	}
+	e := c.e
+	defer e.Stop()
+	ctx, cancel := context.WithTimeout(e.S.Ctx, 30*time.Second) // watchdog only
+	defer cancel()
+	bad := e.NewLayer()
+	bad.Set[0], bad.NegA = true, true
+	w1 := &conc.WSrc{Src: conc.Src{Name: "watcher-with-refused-first-value", Init: bad}}
+	serr := c.blank.SetSource(ctx, w1)
+	if ctx.Err() != nil {
+		w.Inconclusive(i, "SetSource(watcher with a refused first value) took more than 30s")
+		return
+	}
+	if serr == nil {
+		w.Violation(i, "blank-setsource-error-not-propagated:first-value-refused", "SetSource returned nil for a Watcher whose first value fails Verify (verification is on)", desc)
+		return
+	}
+	if w1.WA() != nil {
+		// the Blank started the watcher although it reported failure: then the slot is the watcher's; not judged here
+		w.Count("blank_refused_watcher_was_started_anyway", 1)
+		return
+	}
+	l2 := e.RandLayer(r, 0, 0)
+	secondWatches := r.Bool()
+	var second dials.Source = &conc.Src{Name: "static-after-refused-watcher", Init: l2}
+	if secondWatches {
+		second = &conc.WSrc{Src: conc.Src{Name: "watcher-after-refused-watcher", Init: l2}}
+	}
+	desc["second_is_watcher"] = secondWatches
+	serr2 := c.blank.SetSource(ctx, second)
+	if ctx.Err() != nil {
+		w.Inconclusive(i, "SetSource after the refused watcher took more than 30s")
+		return
+	}
+	w.Count("blank_setsource_after_a_refused_watcher", 1)
+	if serr2 != nil {
+		w.Violation(i, "blank-refused-to-replace-a-watcher-that-never-watched", fmt.Sprintf("first SetSource(watcher) failed (%v) and the watcher's Watch was never called, yet the next SetSource is refused: %v", serr, serr2), desc)
+		return
+	}
+	want := l2.Apply(conc.DefaultsFP())
+	if got := conc.FPOf(e.D.View()); got != want {
+		w.Violation(i, "view-not-the-last-setsource-after-a-refused-watcher", fmt.Sprintf("view %+v, want %+v", got, want), desc)
+		return
+	}
+	w.Distinct(fmt.Sprintf("blank-refused-watcher|%v", secondWatches))
+}
+
 // c20BlankReuse: a Blank that served one Dials (and was given a watching inner source) is handed to a second Config
 // after the first was shut down. The second Config may refuse it; if it accepts it, the wrapped watcher's updates must
 // reach the second config like a native watcher's would.
@@ -592,6 +650,8 @@ func runC20(w *fw.Worker) {
 			c20BlankEagerWatcher(w, i, r)
 		case i%24 == 1:
 			c20BlankAbandoned(w, i, r)
+		case i%24 == 3:
+			c20BlankRefusedWatcher(w, i, r)
 		case i%24 == 7:
 			// a Done that expired undelivered does not use up the Blank's right (and duty) to forward the next one
 			blankDoneRetry(w, i, r, "C20")
